@@ -1,5 +1,6 @@
 import TinyVerif.Model.Spawn
 import TinyVerif.Model.SpawnEnv
+import TinyVerif.Model.SpawnIds
 import TinyVerif.Drv.Common
 open TinyVerif TinyVerif.Spawn
 
@@ -117,6 +118,19 @@ def showEnvRound : Option (List Nat) → String
   | none => "noimage"
   | some l => showList l
 
+/-! ids: `ids u=<r.e.s> g=<r.e.s> sg=<a.b..|-> uid=<n|-> gid=<n|-> pg=<-|0|anchor|bogus>` — the caller's identity state
+    and what Command::uid/gid/pgroup were given; the forked child is pid 1000 born into group 900, the session also has
+    group 950 (`anchor`), 999 does not exist (`bogus`).  Answer: what the image runs as, or the errno spawn returns. -/
+
+def parseTriple (s : String) : Option Ids :=
+  match parseList s with
+  | some [r, e, x] => some ⟨r, e, x⟩
+  | _ => none
+
+def showIds (i : Ids) : String := s!"{i.r}.{i.e}.{i.s}.{i.e}"
+
+def idsCtx : PCtx := ⟨1000, 900, [950]⟩
+
 def step (_ : Unit) (line : String) : Unit × String :=
   match Drv.words line with
   | ["spawn", fx, s, cwd, uid, gid, pg, cl, before, eintr, readerr, waiterr, cf] =>
@@ -152,6 +166,31 @@ def step (_ : Unit) (line : String) : Unit × String :=
       | none => ((), "panic")
       | some outs => ((), " / ".intercalate (outs.map showSpawned))
     | _, _, _ => ((), "bad-op")
+  | ["ids", u, g, sg, uid, gid, pg] =>
+    let pgq : Option (Option Nat) := match fld "pg=" pg with
+      | some "-" => some none
+      | some "0" => some (some 0)
+      | some "anchor" => some (some 950)
+      | some "bogus" => some (some 999)
+      | _ => none
+    let sgq : Option (List Nat) := match fld "sg=" sg with
+      | some "-" => some []
+      | some l => parseList l
+      | none => none
+    match fld "u=" u >>= parseTriple, fld "g=" g >>= parseTriple, sgq, fld "uid=" uid >>= optNat, fld "gid=" gid >>= optNat, pgq with
+    | some u, some g, some sg, some uid, some gid, some pg =>
+      let q : IdReq := ⟨uid, gid, pg⟩
+      let r := idSteps idsCtx ⟨u, g, sg⟩ q
+      -- the errno is the one the protocol model hands the caller
+      let cfg : Config := ⟨[1], false, uid.isSome, gid.isSome, pg.isSome, 0⟩
+      let run := spawn true cfg PFault.none (idFault cfg r)
+      match r, run.parent with
+      | .ok ch, .ok =>
+        let pgs := if ch.pgid == 1000 then "own" else if ch.pgid == 900 then "caller" else if ch.pgid == 950 then "anchor" else "other"
+        ((), s!"res=ok uid={showIds ch.cred.uid} gid={showIds ch.cred.gid} groups={showList ch.cred.groups} pgid={pgs}")
+      | .error _, .err (some e) true => ((), s!"res=err:{e}")
+      | _, _ => ((), "model-inconsistent")
+    | _, _, _, _, _, _ => ((), "bad-op")
   | ["freeenv", st, pe, md] =>
     -- the no-alloc front end `process::spawn(.., env: &Environment, ..)`: the environment is passed directly
     match fld "start=" st >>= bit, fld "penv=" pe >>= String.toNat?, fld "mode=" md with
